@@ -93,6 +93,19 @@ def main(argv):
             undecided.append('vacuity: %s mode %s: %s' % (r.unit, r.mode, detail))
         elif ok is None:
             undecided.append('vacuity canary could not be evaluated for %s mode %s: %s' % (r.unit, r.mode, detail))
+    # vacuity guard for preconditions (no-abort mode): a contradictory `requires` would make everything proved under it void
+    probes = []
+    seen_probe = set()
+    for r in results:
+        if r.tool_error or any(f.kind == 'tool' for f in r.failures) or (r.unit, r.mode) in seen_probe:
+            continue
+        seen_probe.add((r.unit, r.mode))
+        ok, detail, n = run.precondition_probes(r, workdir)
+        probes.append(dict(unit=r.unit, mode=r.mode, probes=n, ok=ok, detail=detail))
+        if ok is False:
+            undecided.append('vacuity: %s mode %s: %s' % (r.unit, r.mode, detail))
+        elif ok is None:
+            undecided.append('precondition probes could not be evaluated for %s mode %s: %s' % (r.unit, r.mode, detail))
     # thorough: re-run with other solver seeds / rlimits: instability is reported as undecided, never as a violation
     stability = []
     if tier == 'thorough' and not undecided:
@@ -270,6 +283,7 @@ def main(argv):
             stability_runs=stability,
             assumption_audit=audit,
             vacuity_canaries=canaries,
+            precondition_probes=probes,
             known_findings=kf_reports,
             undecided=undecided,
             failed_obligations=[f.to_json() for _, f in fails],
